@@ -314,6 +314,86 @@ func (b *bsRun) settle(n int) {
 	}
 }
 
+// bsExecute runs the given messages of one peer against a fresh block-sync reactor (syncing: around the fresh node
+// with events flowing to the real scheduler/processor; serving: around a node with a chain).
+func bsExecute(t ev.TB, w *bsWorld, syncing bool, ws []wire) (run *bsRun, classes []string, nontrivial bool) {
+	nd := w.s.Nodes[0]
+	if syncing {
+		nd = w.fresh
+	}
+	h0 := nd.BOps.Height()
+	fs := configs.DefaultFastSyncConfig()
+	r := bc.NewBlockchainReactor(nd.CS.VerifState(), nd.Exec, nd.BOps, fs)
+	sw := newSwitch(map[string]p2p.Reactor{"BLOCKCHAIN": r})
+	r.SetLogger(log.New())
+	r.VerifC18UseSwitchReporter()
+	run = &bsRun{t: t, rep: evReporter(t), r: r, sw: sw, classes: map[string]bool{},
+		probes: []lockProbe{probeRW("blockchain.reactor.mtx", &r.VerifC18Mtx().RWMutex)}}
+	if syncing {
+		run.events = make(chan bc.VerifC18Event, 1000)
+		r.VerifC18SetEvents(run.events)
+	}
+	peer := newPeer()
+	if err := sw.VerifC18AddPeer(peer); err != nil {
+		t.Fatalf("harness: %v", err)
+	}
+	mode := "serving"
+	if syncing {
+		mode = "syncing"
+	}
+	run.text = func() string { return "blocksync mode=" + mode + " " + wiresText(ws) }
+	classes = []string{"blocksync", "blocksync:" + mode}
+	ok := run.call("AddPeer", 0, func() { r.AddPeer(peer) })
+	if ok {
+		run.settle(0)
+	}
+	for i, wr := range ws {
+		if run.stopped {
+			break
+		}
+		var dm interface{}
+		var derr error
+		ev.Try(func() {
+			pm, err := bc.DecodeMsg(wr.data)
+			if err == nil {
+				err = bc.ValidateMsg(pm)
+			}
+			dm, derr = pm, err
+		})
+		accepted := dm != nil && derr == nil
+		cl := "blocksync:msg:" + descClass(wr.desc)
+		classes = append(classes, cl)
+		if accepted {
+			classes = append(classes, cl+":accepted")
+			if wr.desc != "BlockResponse/genuine" && wr.desc != "StatusRequest" {
+				nontrivial = true
+			}
+		}
+		wr := wr
+		if !run.call(fmt.Sprintf("blocksync Receive(message %d)", i), len(wr.data), func() { r.Receive(wr.ch, peer, wr.data) }) {
+			break
+		}
+		run.settle(0)
+		if !peer.IsRunning() {
+			classes = append(classes, "blocksync:peer-dropped")
+			break
+		}
+	}
+	if peer.IsRunning() {
+		run.call("StopPeerGracefully", 0, func() { sw.StopPeerGracefully(peer) })
+		run.settle(0)
+	}
+	for c := range run.classes {
+		classes = append(classes, "blocksync:"+c)
+	}
+	if syncing && nd.BOps.Height() != h0 {
+		classes = append(classes, "blocksync:store-advanced")
+		w.fresh.Close()
+		w.fresh = nil
+	}
+	return run, classes, nontrivial
+}
+
 // TestBlockSync: 1-5 block-sync messages to a reactor that is either syncing (fresh node, events flowing to the real
 // scheduler and processor, driven by the harness instead of demux) or serving (node with a chain).
 func TestBlockSync(t *testing.T) {
@@ -322,26 +402,6 @@ func TestBlockSync(t *testing.T) {
 		w := getBSWorld(t)
 		acct = newAccount(false)
 		syncing := weighted(t, "mode", 70, 30) == 0
-		nd := w.s.Nodes[0]
-		if syncing {
-			nd = w.fresh
-		}
-		h0 := nd.BOps.Height()
-		fs := configs.DefaultFastSyncConfig()
-		r := bc.NewBlockchainReactor(nd.CS.VerifState(), nd.Exec, nd.BOps, fs)
-		sw := newSwitch(map[string]p2p.Reactor{"BLOCKCHAIN": r})
-		r.SetLogger(log.New())
-		r.VerifC18UseSwitchReporter()
-		run := &bsRun{t: t, rep: evReporter(t), r: r, sw: sw, classes: map[string]bool{},
-			probes: []lockProbe{probeRW("blockchain.reactor.mtx", &r.VerifC18Mtx().RWMutex)}}
-		if syncing {
-			run.events = make(chan bc.VerifC18Event, 1000)
-			r.VerifC18SetEvents(run.events)
-		}
-		peer := newPeer()
-		if err := sw.VerifC18AddPeer(peer); err != nil {
-			t.Fatalf("harness: %v", err)
-		}
 		// the messages
 		var ws []wire
 		if weighted(t, "template", 45, 55) == 1 && syncing {
@@ -375,60 +435,10 @@ func TestBlockSync(t *testing.T) {
 				ws = append(ws, wr)
 			}
 		}
+		run, classes, nontrivial := bsExecute(t, w, syncing, ws)
 		mode := "serving"
 		if syncing {
 			mode = "syncing"
-		}
-		run.text = func() string { return "blocksync mode=" + mode + " " + wiresText(ws) }
-		classes := []string{"blocksync", "blocksync:" + mode}
-		nontrivial := false
-		ok := run.call("AddPeer", 0, func() { r.AddPeer(peer) })
-		if ok {
-			run.settle(0)
-		}
-		for i, wr := range ws {
-			if run.stopped {
-				break
-			}
-			var dm interface{}
-			var derr error
-			ev.Try(func() {
-				pm, err := bc.DecodeMsg(wr.data)
-				if err == nil {
-					err = bc.ValidateMsg(pm)
-				}
-				dm, derr = pm, err
-			})
-			accepted := dm != nil && derr == nil
-			cl := "blocksync:msg:" + descClass(wr.desc)
-			classes = append(classes, cl)
-			if accepted {
-				classes = append(classes, cl+":accepted")
-				if wr.desc != "BlockResponse/genuine" && wr.desc != "StatusRequest" {
-					nontrivial = true
-				}
-			}
-			wr := wr
-			if !run.call(fmt.Sprintf("blocksync Receive(message %d)", i), len(wr.data), func() { r.Receive(wr.ch, peer, wr.data) }) {
-				break
-			}
-			run.settle(0)
-			if !peer.IsRunning() {
-				classes = append(classes, "blocksync:peer-dropped")
-				break
-			}
-		}
-		if peer.IsRunning() {
-			run.call("StopPeerGracefully", 0, func() { sw.StopPeerGracefully(peer) })
-			run.settle(0)
-		}
-		for c := range run.classes {
-			classes = append(classes, "blocksync:"+c)
-		}
-		if syncing && nd.BOps.Height() != h0 {
-			classes = append(classes, "blocksync:store-advanced")
-			w.fresh.Close()
-			w.fresh = nil
 		}
 		ev.Case(nontrivial, run.text(), classes...)
 		if nontrivial {
